@@ -4,6 +4,7 @@
 //!   itv record <m> <n>    n seeded random runs of module m -> ndjson trace on stdout
 mod c03;
 mod c04;
+mod c10;
 mod c11;
 mod c12;
 mod olpc;
@@ -32,6 +33,7 @@ fn dispatch(st: &mut State, scn: &Value) -> Value {
             st.verify.get_or_insert_with(|| verify::Ctx::new(&common::family(), &prop)).run(scn, ev, pin)
         }
         "C20" => c20::run(scn),
+        "C10" => c10::run(scn, &mut common::rng(10 + scn["i"].as_u64().unwrap_or(0) + 1000003 * std::env::var("ITV_SALT").ok().and_then(|s| s.parse::<u64>().ok()).unwrap_or(0))),
         "C11" => st.c11.get_or_insert_with(c11::Ctx::new).run(scn),
         "C04" => st.c04.get_or_insert_with(|| c04::Ctx::new(&common::family())).run(scn, true, false),
         m => json!({"error": format!("unknown module {m}")}),
@@ -88,6 +90,7 @@ fn main() {
                     }
                 }
                 "C20" => c20::record(n, &mut out),
+                "C10all" => writeln!(out, "{}", c10::all_scalars(n.max(1) as u32)).unwrap(),
                 "C11keyid" => writeln!(out, "{}", c12::keyid_preimages()).unwrap(),
                 "C11all" => writeln!(out, "{}", c11::Ctx::new().all_scalars(n.max(1) as u32)).unwrap(),
                 "C20bin" => writeln!(out, "{}", c20::binary(n)).unwrap(),
